@@ -1,5 +1,5 @@
 /- FFT ring layer: mpn_mulmod_2expp1_basecase (the pointwise products of the FFT), whole-limb case b = 64·n. -/
-import MpirProofs.Lemmas.FftRingShift
+import MpirProofs.Lemmas.FftRingBfly
 import MpirProofs.Lemmas.FftRingSplit
 namespace Mpir.Fft
 open Mpir
@@ -193,5 +193,111 @@ theorem basecase_spec (yp zp : List Nat) (c n : Nat) (hn : 1 ≤ n) (hy : Limbs 
     refine ⟨by simp; omega, hL, by omega, ?_, ?_⟩
     · rw [hv]; simp only [Nat.mul_zero, Nat.add_zero]; exact Nat.one_le_pow _ _ B_pos
     · rw [hv, modEq_pmod_iff]; exact ⟨-((B : Int) ^ n - 1), by push_cast; ring⟩
+
+/-! ### mpn_mulmod_Bexpp1 (limbs ≤ FFT_MULMOD_2EXPP1_CUTOFF): the product of two normalised residues -/
+
+theorem canonical_val (xs : List Nat) (t : Nat) (hx : Limbs (xs ++ [t])) (hc : Canonical (xs ++ [t])) :
+    t ≤ 1 ∧ rval (xs ++ [t]) = (val xs : Int) + (B : Int) ^ xs.length * t ∧ (t = 1 → val xs = 0) := by
+  rcases hc with h | ⟨h, h0⟩
+  · simp only [top_snoc] at h; subst h
+    exact ⟨by omega, by rw [rval_snoc]; simp, by omega⟩
+  · simp only [top_snoc, lo_snoc] at h h0; subst h
+    exact ⟨by omega, by rw [rval_snoc]; simp, fun _ => h0⟩
+
+/-- negating a normalised residue over all limbs+1 limbs (mulmod_bexpp1.c:47, :52) -/
+theorem neg_canonical (xs : List Nat) (t : Nat) (hx : Limbs (xs ++ [t])) (hn : 1 ≤ xs.length)
+    (hc : Canonical (xs ++ [t])) :
+    ∃ ys g, (neg_n (xs ++ [t])).1 = ys ++ [g] ∧ ys.length = xs.length ∧ Limbs (ys ++ [g]) ∧ g ≠ B / 2 ∧
+      rval (ys ++ [g]) = - rval (xs ++ [t]) := by
+  obtain ⟨nv, _, nL, nn⟩ := neg_n_spec (xs ++ [t]) hx
+  simp only [List.length_append, List.length_cons, List.length_nil] at nv nn
+  obtain ⟨ys, g, e, l⟩ := exists_snoc _ xs.length nn
+  rw [e] at nv nL
+  obtain ⟨ht, hr, h0⟩ := canonical_val xs t hx hc
+  have ⟨hxs, _⟩ := Limbs_snoc.mp hx
+  have hv0 : (0 : Int) ≤ val xs := by positivity
+  have hv1 := valZ_lt xs hxs
+  have hP := B_le_pow xs.length hn
+  have hrange : -((B : Int) ^ xs.length) ≤ -rval (xs ++ [t]) ∧ -rval (xs ++ [t]) ≤ 0 := by
+    rw [hr]
+    have : t = 0 ∨ t = 1 := by omega
+    rcases this with h | h
+    · subst h; simp only [Nat.cast_zero, mul_zero, add_zero]; constructor <;> linarith
+    · have := h0 h; subst h; rw [this]; simp
+  have hrv : rval (ys ++ [g]) = -rval (xs ++ [t]) := by
+    apply rval_of_eq ys g nL _ ((neg_n (xs ++ [t])).2 : Int)
+    · rw [l, hr]
+      rw [val_snoc, val_snoc, l] at nv
+      have nv' := congrArg (fun z : Nat => (z : Int)) nv
+      rw [val_snoc, l]; push_cast at nv' ⊢
+      linear_combination nv'
+    · rw [l, pow_succ]; generalize (B : Int) ^ xs.length = P at *; rw [BZ_eq] at *; linarith [hrange.1]
+    · rw [l, pow_succ]; generalize (B : Int) ^ xs.length = P at *; rw [BZ_eq] at *; linarith [hrange.2]
+  refine ⟨ys, g, e, l, nL, ?_, hrv⟩
+  have tb := top_bounds ys g nL (-1) 0 (by rw [l, hrv]; linarith [hrange.1])
+    (by rw [l, hrv]; have := BZpow_pos xs.length; linarith [hrange.2])
+  intro hg; rw [hg] at tb
+  have : sint (B / 2) = -9223372036854775808 := by rw [sint_def]; simp only [B_eq]; norm_num
+  rw [this] at tb; omega
+
+theorem mulmod_Bexpp1_spec (A C : List Nat) (t1 t2 : Nat) (hA : Limbs (A ++ [t1])) (hC : Limbs (C ++ [t2]))
+    (hl : A.length = C.length) (hn : 1 ≤ A.length)
+    (c1 : Canonical (A ++ [t1])) (c2 : Canonical (C ++ [t2])) :
+    ∃ ys g, (mulmod_Bexpp1 (A ++ [t1]) (C ++ [t2])).1 = ys ++ [g] ∧ ys.length = A.length ∧ Limbs (ys ++ [g]) ∧
+      Canonical (ys ++ [g]) ∧
+      rval (ys ++ [g]) ≡ rval (A ++ [t1]) * rval (C ++ [t2]) [ZMOD pmod A.length] := by
+  obtain ⟨ht1, hr1, h01⟩ := canonical_val A t1 hA c1
+  obtain ⟨ht2, hr2, h02⟩ := canonical_val C t2 hC c2
+  have hB := B_eq
+  unfold mulmod_Bexpp1
+  simp only [top_snoc, lo_snoc]
+  have hc : ladd (2 * t1 % B) t2 = 2 * t1 + t2 := by unfold ladd; rw [B_eq]; omega
+  rw [hc]
+  have hlen : (A ++ [t1]).length - 1 = A.length := by simp
+  rw [hlen]
+  by_cases o2 : t2 = 1
+  · -- i2 = 2^(nw) ≡ −1
+    have e1 : (2 * t1 + t2) % 2 = 1 := by omega
+    simp only [e1, ↓reduceIte]
+    obtain ⟨ns, ng, ne, nl, nL, nmin, nr⟩ := neg_canonical A t1 hA hn c1
+    rw [ne]
+    obtain ⟨ys, g, e, l, L, cn, r⟩ := normmod_spec ns ng nL (by omega) nmin
+    refine ⟨ys, g, e, by rw [l, nl], L, cn, ?_⟩
+    rw [nl] at r
+    refine r.trans ?_
+    rw [nr, hr2, h02 o2, o2, ← hl, modEq_pmod_iff]
+    exact ⟨-rval (A ++ [t1]), by push_cast; ring⟩
+  · have z2 : t2 = 0 := by omega
+    by_cases o1 : t1 = 1
+    · have e1 : (2 * t1 + t2) % 2 = 0 := by omega
+      have e2 : (2 * t1 + t2) / 2 % 2 = 1 := by omega
+      simp only [e1, e2, ↓reduceIte, zero_ne_one]
+      obtain ⟨ns, ng, ne, nl, nL, nmin, nr⟩ := neg_canonical C t2 hC (by omega) c2
+      rw [ne]
+      obtain ⟨ys, g, e, l, L, cn, r⟩ := normmod_spec ns ng nL (by omega) nmin
+      refine ⟨ys, g, e, by rw [l, nl, hl], L, cn, ?_⟩
+      rw [nl, ← hl] at r
+      refine r.trans ?_
+      rw [nr, hr1, h01 o1, o1, modEq_pmod_iff]
+      exact ⟨-rval (C ++ [t2]), by push_cast; ring⟩
+    · have z1 : t1 = 0 := by omega
+      subst z1 z2
+      simp only [Nat.mul_zero, Nat.add_zero, Nat.zero_mod, Nat.zero_div, zero_ne_one, ↓reduceIte]
+      rw [Nat.mul_comm A.length 64]
+      obtain ⟨b1, b2, b3, b4, b5⟩ := basecase_spec A C 0 A.length hn (Limbs_snoc.mp hA).1 (Limbs_snoc.mp hC).1 rfl hl.symm
+      generalize (mulmod_2expp1_basecase A C 0 (64 * A.length)).1 = r at *
+      generalize (mulmod_2expp1_basecase A C 0 (64 * A.length)).2 = cc at *
+      have hcL : Limbs (r ++ [cc]) := Limbs_snoc.mpr ⟨b2, by omega⟩
+      refine ⟨r, cc, rfl, b1, hcL, ?_, ?_⟩
+      · by_cases hcc : cc = 0
+        · exact Or.inl (by simpa using hcc)
+        · have : cc = 1 := by omega
+          subst this
+          refine Or.inr ⟨by simp, ?_⟩
+          simp only [lo_snoc]; generalize B ^ A.length = P at *; omega
+      · have hs : sint cc = cc := sint_bit cc b3
+        rw [rval_snoc, b1, hs, hr1, hr2]
+        simp only [flagged, Nat.zero_div, Nat.zero_mod, zero_ne_one, ↓reduceIte] at b5
+        simpa using b5
 
 end Mpir.Fft
